@@ -8,10 +8,13 @@ TakesQuick == {-1, 0, 2}
 TakesFull  == {-1, 0, 1, 2, 3, 5}
 TakesSome  == {-1, 1, 3}
 TakesTwo   == {-1, 3}
+TakesRest  == {0, 2, 5}
 (* <<number of feature columns, position of the label column>> *)
-ShapesQuick == {<<0, 0>>, <<1, 0>>, <<2, 1>>, <<2, 2>>}
+ShapesQuick == {<<1, 0>>, <<2, 1>>, <<2, 2>>}
 ShapesFull  == {<<0, 0>>, <<1, 0>>, <<1, 1>>, <<2, 0>>, <<2, 1>>, <<2, 2>>}
 ShapesOne   == {<<1, 0>>, <<2, 1>>}
 XKsAll   == {"scalar", "tuple", "dict", "none", "str"}
 XKsQuick == {"scalar", "tuple", "dict"}
+(* the reads performed on one simulation object: first, second, one abandoned after the first interaction, one after that *)
+PlanAll == <<"full", "full", "abandon", "full">>
 =============================================================================
